@@ -547,6 +547,9 @@ func (w *World) onAPIWrite(op string, obj client.Object) {
 			w.statusWrites++
 			if truth := w.truthNode(); truth != nil {
 				simrt.Log("status", "%s", compactStatus(truth))
+				for id := range truth.Status.NetworkInterfaces {
+					w.everRecorded[id] = true
+				}
 				w.checkNodeStatus(truth)
 				w.prevNode = truth.DeepCopy()
 			}
